@@ -5,6 +5,7 @@
 package drive
 
 import (
+	"bytes"
 	"errors"
 	"fmt"
 	"io"
@@ -61,7 +62,17 @@ type Obs struct {
 
 var errSpin = errors.New("drive: reader spins returning (0, nil)")
 
+// CopyBuf is the caller buffer size that stands for "the consumer uses io.Copy"
+// (32 KiB internal buffer, and whatever io.WriterTo fast path the reader offers).
+const CopyBuf = 32768
+
 func readAll(r io.Reader, buf []byte, into *[]byte) error {
+	if len(buf) == CopyBuf {
+		var b bytes.Buffer
+		_, err := io.Copy(&b, r)
+		*into = append(*into, b.Bytes()...)
+		return err
+	}
 	empty := 0
 	for {
 		n, err := r.Read(buf)
